@@ -326,7 +326,10 @@ def ad_matrix(tier, seed):
          dict(problem="branin", eps=0.05, contraction=64, order=["theta", 60], max_steps=(100 if q else 260)),
          dict(problem="p1", eps=0.05, contraction=64, order=["theta", 90], max_steps=80),
          dict(problem="p1", eps=0.2, contraction=32, order=["orth", 2], max_steps=60, depth_max=3, warm=dict(depth_max=6, steps=40)),
-         dict(problem="p2", eps=0.2, contraction=32, order=["orth", 2], max_steps=60, depth_max=3, warm=dict(depth_max=2, steps=25))]
+         dict(problem="p2", eps=0.2, contraction=32, order=["orth", 2], max_steps=60, depth_max=3, warm=dict(depth_max=2, steps=25)),
+         # boundary configuration: the root is already the finest leaf (nothing may be refined, the root is what gets declared)
+         dict(problem="p2", eps=0.2, contraction=32, order=["orth", 2], max_steps=8, depth_max=1),
+         dict(problem="p3", eps=0.3, contraction=32, order=["theta", 60], max_steps=8, depth_max=1)]
     if not q:
         M += [dict(problem="branin", eps=0.1, contraction=32, order=["orth", 2], max_steps=260),
               dict(problem="branin", eps=0.05, contraction=64, order=["theta", 135], max_steps=260),
